@@ -30,6 +30,7 @@ pub uninterp spec fn f_nan() -> F;
 pub uninterp spec fn f_inf() -> F;
 pub uninterp spec fn f_maxval() -> F;
 pub uninterp spec fn f_minval() -> F;
+pub uninterp spec fn f_frac_1_sqrt_2() -> F;
 impl vstd::std_specs::ops::AddSpecImpl<F> for F {
     open spec fn obeys_add_spec() -> bool { true }
     open spec fn add_req(self, rhs: F) -> bool { true }
@@ -108,6 +109,7 @@ impl F {
     #[verifier::external_body] pub fn infinity() -> (r: F) ensures r == f_inf() { unimplemented!() }
     #[verifier::external_body] pub fn max_value() -> (r: F) ensures r == f_maxval() { unimplemented!() }
     #[verifier::external_body] pub fn min_value() -> (r: F) ensures r == f_minval() { unimplemented!() }
+    #[verifier::external_body] pub fn FRAC_1_SQRT_2() -> (r: F) ensures r == f_frac_1_sqrt_2() { unimplemented!() }
     #[verifier::external_body] pub fn recip(self) -> (r: F) ensures r == f_recip(self) { unimplemented!() }
     #[verifier::external_body] pub fn sqrt(self) -> (r: F) ensures r == f_sqrt(self) { unimplemented!() }
     #[verifier::external_body] pub fn abs(self) -> (r: F) ensures r == f_abs(self) { unimplemented!() }
